@@ -150,7 +150,7 @@ def step (st : St) (line : String) : St × String :=
         match tbl i with
         | some t =>
           let t' := pickleRoundTrip t
-          ({ st with tables := st.tables ++ [t'] }, s!"ok {decide (t' = t)}")
+          ({ st with tables := st.tables ++ [t'] }, s!"ok {tableEq t' t}")
         | none => (st, "no-table")
       | "dump", [i] =>
         match tbl i with
@@ -176,6 +176,12 @@ def step (st : St) (line : String) : St × String :=
         | none, _, _, _ => (st, "no-table")
         | _, none, _, _ => (st, "no-table")
         | _, _, _, _ => bad
+      | "simk", [q, mat, thr] =>
+        match q.toNat?, parseInts mat, thr.toInt? with
+        | some q, some mat, some thr =>
+          if q ≥ a.size then (st, showErr .alphabetError)
+          else (st, "ok " ++ showNatsE (sortNats (bbSim a mat thr q)))
+        | _, _, _ => bad
       | "matchsel", [i, ps, ks] =>
         match tbl i, parseNats ps, parseNats ks with
         | some t, some ps, some ks => (st, showRes triplesOut (matchSelection t ps ks))
@@ -205,7 +211,7 @@ def step (st : St) (line : String) : St × String :=
         | _, _ => bad
       | "eq", [i, j] =>
         match tbl i, tbl j with
-        | some t, some o => (st, s!"ok {decide (t = o)}")
+        | some t, some o => (st, s!"ok {tableEq t o}")
         | _, _ => (st, "no-table")
       | "minim", [w, p, ks] =>
         match w.toNat?, parsePerm p, parseNats ks with
@@ -218,6 +224,10 @@ def step (st : St) (line : String) : St × String :=
       | "synck", [s, p, offs, ks] =>
         match s.toNat?, parsePerm p, parseInts offs, parseNats ks with
         | some s, some p, some offs, some ks => (st, showRes pairsOut (syncmerFromKmers a.n a.k s p offs ks))
+        | _, _, _, _ => bad
+      | "csynck", [s, p, offs, ks] =>
+        match s.toNat?, parsePerm p, parseInts offs, parseNats ks with
+        | some s, some p, some offs, some ks => (st, showRes pairsOut (cachedSyncmerFromKmers a.n a.k s p offs ks))
         | _, _, _, _ => bad
       | "minc", [c, p, ks] =>
         match c.toNat?, parsePerm p, parseNats ks with
